@@ -16,6 +16,8 @@ pub struct CheckSpec {
     pub generate: fn(prop: &str, seed: u64, tier: Tier, run_index: u64) -> Scenario,
     /// evaluation over the merged count tables of the whole batch (C15)
     pub finalize: Option<fn(tables: &BTreeMap<String, Vec<u64>>, prop: &str) -> (Option<Violation>, Value)>,
+    /// environment check before the batch (e.g. the CPython child starts and imports the extension); Err = harness error (exit 2)
+    pub preflight: Option<fn() -> Result<String, String>>,
     pub runs_quick: u64,
     pub runs_thorough: u64,
     pub rule: &'static str,
@@ -45,13 +47,30 @@ pub struct Acc {
     pub sets: BTreeMap<&'static str, HashSet<u64>>,
     pub tables: BTreeMap<String, Vec<u64>>,
     pub maxes: BTreeMap<&'static str, u64>,
+    /// per-run event log (run index, end digest, ops, skipped, state digests hash, violation class) when VERIF_EVENT_LOG is set
+    pub events: Vec<(u64, u64, u64, u64, u64, String)>,
 }
 
 const STATE_CAP: usize = 1_500_000;
 
 impl Acc {
-    fn add(&mut self, idx: u64, out: RunOutcome) {
+    fn add(&mut self, idx: u64, out: RunOutcome, log: bool) {
         let s = out.stats;
+        if log {
+            let mut h = crate::obs::Fnv::new();
+            for d in &s.state_digests {
+                h.u64(*d);
+            }
+            for (k, v) in &s.probes {
+                h.bytes(k.as_bytes());
+                h.u64(*v);
+            }
+            for (k, v) in &s.faults {
+                h.bytes(k.as_bytes());
+                h.u64(*v);
+            }
+            self.events.push((idx, s.end_digest, s.ops, s.skipped_ops, h.0, out.violation.as_ref().map(|v| format!("{}@{}#{}", v.class, v.site, v.op_index)).unwrap_or_default()));
+        }
         self.runs += 1;
         self.ops += s.ops;
         self.skipped += s.skipped_ops;
@@ -118,6 +137,7 @@ impl Acc {
         }
         self.inconclusive += o.inconclusive;
         self.violations.extend(o.violations);
+        self.events.extend(o.events);
         for (k, v) in o.maxes {
             let e = self.maxes.entry(k).or_insert(0);
             *e = (*e).max(v);
@@ -197,6 +217,7 @@ pub fn run_batch(spec: &CheckSpec, tier: Tier, seed: u64, n: u64, max_secs: u64)
     let w = workers();
     let root = scratch_root();
     let chunk: u64 = (n / (w as u64 * 64)).clamp(1, 256);
+    let log_events = std::env::var("VERIF_EVENT_LOG").is_ok();
     std::thread::scope(|sc| {
         for k in 0..w {
             let next = &next;
@@ -221,7 +242,7 @@ pub fn run_batch(spec: &CheckSpec, tier: Tier, seed: u64, n: u64, max_secs: u64)
                         let scn = (spec.generate)(spec.id, rs, tier, idx);
                         let mut out = scn.execute(&dir);
                         out.stats.nontrivial = (spec.nontrivial)(&out.stats);
-                        acc.add(idx, out);
+                        acc.add(idx, out, log_events);
                     }
                     if start.elapsed() > Duration::from_secs(max_secs) {
                         stop.store(true, Ordering::Relaxed);
@@ -235,6 +256,14 @@ pub fn run_batch(spec: &CheckSpec, tier: Tier, seed: u64, n: u64, max_secs: u64)
     let _ = std::fs::remove_dir_all(&root);
     let mut acc = total.into_inner().unwrap();
     acc.violations.sort_by_key(|(i, _)| *i);
+    if let Ok(path) = std::env::var("VERIF_EVENT_LOG") {
+        acc.events.sort();
+        let mut out = String::new();
+        for e in &acc.events {
+            out.push_str(&format!("{} {:016x} {} {} {:016x} {}\n", e.0, e.1, e.2, e.3, e.4, e.5));
+        }
+        let _ = std::fs::write(path, out);
+    }
     // samples: the first two scenarios as executed (operation lists cut for size)
     let mut samples = vec![];
     for idx in 0..2u64.min(n) {
@@ -289,12 +318,25 @@ pub fn run_check(spec: &CheckSpec, tier: Tier) -> i32 {
         Tier::Quick => 150,
         Tier::Thorough => 1500,
     });
+    let mut pre_info = String::new();
+    if let Some(pf) = spec.preflight {
+        match pf() {
+            Ok(s) => pre_info = s,
+            Err(e) => {
+                println!("harness error: {}", e);
+                return 2;
+            }
+        }
+    }
     let res = run_batch(spec, tier, seed, n, max_secs);
     let (mut code, known_hit, mut nviol) = report(spec, tier, seed, &res);
     let mut extra = json!({});
+    if !pre_info.is_empty() {
+        extra = json!({"interpreter": pre_info});
+    }
     if let Some(fin) = spec.finalize {
         let (v, rep) = fin(&res.acc.tables, spec.id);
-        extra = json!({"statistical_tables": rep});
+        extra["batch_report"] = rep;
         if let (Some(v), 0) = (v, code) {
             // the statistical verdict belongs to the whole batch: the replay file re-runs the batch
             let scn = Scenario::StatBatch { property: spec.id.to_string(), verif_seed: seed, runs: res.acc.runs };
